@@ -13,6 +13,7 @@ PLAIN := $(COMMON) -O1
 ASAN  := $(COMMON) -O1 -fsanitize=address -fno-omit-frame-pointer -DSIM_BUILD_NAME='"asan"'
 TLS   := $(COMMON) -O1 -DRLBOX_EMBEDDER_PROVIDES_TLS_STATIC_VARIABLES -DSIM_BUILD_NAME='"tls"'
 LIBS := -lpthread -ldl
+MUTEXWRAP := -Wl,--wrap=pthread_mutex_lock -Wl,--wrap=pthread_mutex_unlock
 
 TARGETS := apptoken abi abi.wide mem mem.p64 mem.pvoid callback callback.tls invoke toctou toctou.asan bulk bulk.asan bulk.nogrant bulk.wide transition.hooks transition.inonly transition.outonly transition.timing transition.both transition.wide threads threads.tsan threads.tls
 
@@ -66,11 +67,11 @@ $(B)/sched.o: sim/sched.cpp sim/sched.hpp | $(B)
 $(B)/sched.clang.o: sim/sched.cpp sim/sched.hpp | $(B)
 	$(CLANGXX) -std=c++17 -O1 -g -c $< -o $@
 $(B)/threads: worlds/threads.cpp $(B)/sched.o $(GUESTSO) $(HDRS) $(SIMH) | $(B)
-	$(CXX) $(PLAIN) $< $(B)/sched.o -o $@ $(LIBS)
+	$(CXX) $(PLAIN) $< $(B)/sched.o -o $@ $(LIBS) $(MUTEXWRAP)
 $(B)/threads.tls: worlds/threads.cpp $(B)/sched.o $(GUESTSO) $(HDRS) $(SIMH) | $(B)
-	$(CXX) $(TLS) $< $(B)/sched.o -o $@ $(LIBS)
+	$(CXX) $(TLS) $< $(B)/sched.o -o $@ $(LIBS) $(MUTEXWRAP)
 $(B)/threads.tsan: worlds/threads.cpp $(B)/sched.clang.o $(GUESTSO) $(HDRS) $(SIMH) | $(B)
-	$(CLANGXX) $(COMMON) -O1 -fsanitize=thread -DTH_TIMING -DSIM_BUILD_NAME='"tsan"' $< $(B)/sched.clang.o -o $@ $(LIBS)
+	$(CLANGXX) $(COMMON) -O1 -fsanitize=thread -DTH_TIMING -DSIM_BUILD_NAME='"tsan"' $< $(B)/sched.clang.o -o $@ $(LIBS) $(MUTEXWRAP)
 
 $(B)/mem.p64: worlds/mem.cpp $(HDRS) $(SIMH) | $(B)
 	$(CXX) $(PLAIN) -DSIM_PTR_T=uint64_t -DSIM_BUILD_NAME='"p64"' $< -o $@ $(LIBS)
